@@ -275,7 +275,7 @@ func (s *vC03Sys) observe(h []string) {
 	combos := [][]string{{"a", "b"}, {"a", "a b", "c"}, {"z", "a"}}
 	for ci, combo := range combos {
 		for _, agg := range []ScoreAggregationKind{SumAggregation, MaxAggregation, MeanAggregation} {
-			for _, k := range []int{-1, 10} {
+			for _, k := range []int{-1, len(s.docs) + 10} {
 				s.c.Evaluations++
 				per := map[uint32][]float64{}
 				for _, q := range combo {
@@ -341,6 +341,50 @@ func (s *vC03Sys) Key() string {
 	return sb.String()
 }
 
+// vC03Sweep: for every n in 1..maxN a corpus of n structured documents (every third
+// removed, flush, one replace, one more add), full query alphabet after each phase.
+func vC03Sweep(c *vCtx, maxN int) {
+	words := []string{"a", "b", "c", "fi", "É", "a a", "b c a", ""}
+	for n := 1; n <= maxN; n++ {
+		if c.Expired() {
+			c.Bound = fmt.Sprintf("sweep sizes 1..%d", n-1)
+			return
+		}
+		texts := make([]string, n+2)
+		for i := range texts {
+			t := words[i%len(words)]
+			if i%3 == 1 {
+				t += " " + words[(i/3)%len(words)]
+			}
+			if i%5 == 2 {
+				t += " a b"
+			}
+			texts[i] = t
+		}
+		s := &vC03Sys{c: c, cfgS: fmt.Sprintf("bm25 sweep n=%d", n), nids: n + 2, texts: texts}
+		s.Reset()
+		var hist []vOp
+		ap := func(op vOp, check bool) {
+			s.Apply(op, hist, check)
+			hist = append(hist, op)
+			c.Transitions++
+		}
+		for i := 0; i < n; i++ {
+			ap(vOp{K: "Add", A: i + 1, B: i}, i == n-1)
+		}
+		for i := 2; i < n; i += 3 {
+			ap(vOp{K: "Remove", A: i + 1}, i+3 >= n)
+		}
+		ap(vOp{K: "Flush"}, true)
+		ap(vOp{K: "Replace", A: 1, B: n}, true)
+		ap(vOp{K: "Add", A: n + 1, B: n + 1}, true)
+		c.Traces++
+		c.NewState(s.cfgS)
+	}
+	c.Sample(fmt.Sprintf("n structured texts, every third removed, flush, replace, add; every n in 1..%d", maxN))
+	c.Bound = fmt.Sprintf("sweep sizes 1..%d", maxN)
+}
+
 func init() {
 	vRegister(&vCheck{
 		ID: "C03", Level: "model_checking", Engine: "histmc",
@@ -360,9 +404,21 @@ func init() {
 					vBFSFrom(c, s, depth, []vOp{{K: "Add", A: 1, B: t0}})
 				}})
 			}
+			maxN := 70
+			if tier == "thorough" {
+				maxN = 300
+			}
+			sh = append(sh, vShard{Name: "bm25/sweep", Run: func(c *vCtx) { vC03Sweep(c, maxN) }})
 			return sh
 		},
 		Replay: func(c *vCtx, v *vViolation) bool {
+			if strings.HasPrefix(v.Config, "bm25 sweep n=") {
+				var n int
+				fmt.Sscanf(v.Config, "bm25 sweep n=%d", &n)
+				vC03Sweep(c, n)
+				_, ok := c.viol[v.Sig()]
+				return ok
+			}
 			var nids int
 			fmt.Sscanf(v.Config, "bm25 ids=%d", &nids)
 			vReplayHist(&vC03Sys{c: c, cfgS: v.Config, nids: nids, texts: vC03Texts}, v.History)
